@@ -1,0 +1,28 @@
+package types
+
+import (
+	"bytes"
+	"sort"
+
+	"github.com/gogo/protobuf/proto"
+
+	sdk "github.com/cosmos/cosmos-sdk/types"
+)
+
+// EmitTypedEvent emits a typed event with its attributes sorted by key.
+//
+// cosmos-sdk v0.45.2 sdk.TypedEventToEvent builds the attribute list by ranging over a
+// map[string]json.RawMessage, so EventManager.EmitTypedEvent yields a different attribute
+// order on every node and on every run. Events are part of the DeliverTx / EndBlock results
+// and must be identical on all nodes.
+func EmitTypedEvent(ctx sdk.Context, tev proto.Message) error {
+	event, err := sdk.TypedEventToEvent(tev)
+	if err != nil {
+		return err
+	}
+	sort.SliceStable(event.Attributes, func(i, j int) bool {
+		return bytes.Compare(event.Attributes[i].Key, event.Attributes[j].Key) < 0
+	})
+	ctx.EventManager().EmitEvent(event)
+	return nil
+}
